@@ -74,7 +74,7 @@ def run(tier):
     res.floor("C16.R2", 1)
     res.floor("C16.R3", 1)
     res.floor("C16.R4", 1)
-    res.floor("C16.R5", 2)
+    res.floor("C16.R5", 3)
     res.floor("C16.R6", 1)
     res.explanation = ("CFG dominance: verify_claims (the only place a validator is invoked) runs only after the success edge of the core decrypt/verify in the 8 generic parse methods, on its Ok value; inside verify_claims every iteration "
                        "consults the validator table, a registered validator is called with (key, &json[key]) of the authenticated payload, its Result goes through `?`, an iteration completes only through its success edge; "
